@@ -213,6 +213,14 @@ def observe_function(modname, fname, arg, clusters_to_list):
     obs["memento"] = [ok, v]
     ok, v = guarded(lambda: [memento_view(x) for x in fn.list_mementos()])
     obs["list_mementos"] = [ok, v]
+
+    def render():
+        me = fn.memento(arg)
+        if me is None:
+            return None
+        return [len(str(me.trace())) > 0, len(me.graph().source) > 0, len(me.graph(max_depth=1).source) > 0]
+    ok, v = guarded(render)        # the stored call tree as text and as a graph (reads the stored metadata of the sub-calls)
+    obs["trace_graph"] = [ok, v]
     obs["list_functions"] = {}
     for c in clusters_to_list:
         ok, v = guarded(lambda: sorted((ref_tuple(r) for r in m.list_memoized_functions(c)), key=json.dumps))
